@@ -52,6 +52,32 @@ def helper_inline(funcs, current, callee):
     return len(hits) == 1 and hits[0] != current
 
 
+BLOCKING = re.compile(r"(::lock|try_lock|lock_shared|thread::sleep|yield_now|thread::park|Condvar|Mutex|RwLock|flock|::wait\b|recv\b)")
+EXPLORED = []   # (name, Function, paths) of every function explored in this unit run
+
+
+def has_back_edge(f):
+    """True when the function's control-flow graph (normal edges, unwind edges left out) contains a cycle."""
+    succ = {}
+    for bb, (_st, t) in f.blocks.items():
+        t2 = re.sub(r"unwind: bb\d+", "", t)
+        succ[bb] = re.findall(r"\b(bb\d+)\b", t2)
+    state = {}
+
+    def dfs(b):
+        state[b] = 1
+        for n in succ.get(b, []):
+            if state.get(n) == 1:
+                return True
+            if n not in state and n in succ and dfs(n):
+                return True
+        state[b] = 2
+        return False
+    import sys
+    sys.setrecursionlimit(10000)
+    return "bb0" in succ and dfs("bb0")
+
+
 def explore(funcs, pattern, args=None, inline=None, models=None):
     names = [k for k in funcs if re.search(pattern, k)]
     if len(names) != 1:
@@ -67,8 +93,14 @@ def explore(funcs, pattern, args=None, inline=None, models=None):
             if t.startswith("&"):
                 v = ("ref", [v])
             args.append(v)
+    if has_back_edge(f):
+        # a loop where straight-line code is expected: reported by the non-blocking rule, not unrolled
+        EXPLORED.append((name, f, [dict(pc=[], rv=None, rid=None, events=[], drops=[])]))
+        return name, run, []
     res = run.ex.run(name, args)
-    return name, run, run.paths(res)
+    paths = run.paths(res)
+    EXPLORED.append((name, f, paths))
+    return name, run, paths
 
 
 def errors_returned(p, swallow=lambda eff, i: False):
@@ -85,6 +117,7 @@ def errors_returned(p, swallow=lambda eff, i: False):
 
 
 def proto_glue(funcs, text):
+    del EXPLORED[:]
     viol = {}
     decls = []
     fnames = []
@@ -408,7 +441,18 @@ def proto_glue(funcs, text):
                 bad("pure", p, "sharded::Cache::%s touches the file system (%s)" % (label, fs[0][:50]))
     for p_name, rp in (("set", None), ("put", None)):
         pass
+    # ---- non-blocking (C06): finitely many steps on every path, no locking / sleeping / waiting primitive -------------
+    for (nm, f_, paths_) in EXPLORED:
+        if has_back_edge(f_):
+            for p in paths_[:1]:
+                bad("nonblocking", p, "%s contains a loop: the number of its steps is not a constant" % nm)
+        for p in paths_:
+            blk = [e["callee"] for (e, _o) in p["events"] if BLOCKING.search(e["callee"])]
+            if blk:
+                bad("nonblocking", p, "%s calls %s" % (nm, blk[0][:60]))
+                break
     texts = {
+        "nonblocking": ("C06", "get / touch / set / put and the publication steps below them are loop-free and call no locking, sleeping or waiting primitive (maintenance excluded)"),
         "pure": ("C20+C12", "the shard-selection and load-bookkeeping helpers never touch the file system"),
         "update": ("C01+C02+C03+C04", "insert_or_update is exactly: re-stamp the source, make it read-only, rename it over the key, remove the source name (absent is fine)"),
         "insert": ("C01+C02+C03+C04", "insert_or_touch is exactly: re-stamp the source, make it read-only, link it under the key (on AlreadyExists touch the entry instead), remove the source name"),
